@@ -21,6 +21,8 @@ def hash_case(rng, pin, seed, kind):
         out.append(Case("pin.verify %d %d %s %s %s" % (pin, seed, ss.hex(), cs_.hex(), h.hex()), kind + "-verify", "1 ~0"))
         i = rng.randrange(160); x = bytearray(h); x[i // 8] ^= 1 << (i % 8)
         out.append(Case("pin.verify %d %d %s %s %s" % (pin, seed, ss.hex(), cs_.hex(), bytes(x).hex()), kind + "-verify-bitflip", "0 ~0"))
+        if rng.random() < 0.2:
+            out.append(Case("pin.verify %d %d %s %s %s" % (pin, seed, ss.hex(), cs_.hex(), rng.choice(two_place_flips(rng, h, 3)).hex()), kind + "-verify-two-place-change", "0 ~0"))
     else:
         out.append(Case("pin.verify %d %d %s %s %s" % (pin, seed, ss.hex(), cs_.hex(), rbytes(rng, 20).hex()), kind + "-verify", "0 ~0"))
     return out
